@@ -384,6 +384,10 @@ func Lex(s string) []Span {
 			term := false
 			for j < len(s) {
 				if s[j] == '\\' {
+					if j+2 < len(s) && s[j+1] == '\r' && s[j+2] == '\n' {
+						j += 3 // line continuation with a CRLF line ending
+						continue
+					}
 					j += 2
 					continue
 				}
